@@ -129,3 +129,26 @@ def run(ctx, prop=None):
     ctx.coverage["samples"] += [cases[i] for i in sample_ids]
     if summ.get("bfs_exhaustive_to_requested_depth") is not None:
         ctx.coverage["exhaustive"] = bool(summ.get("bfs_exhaustive_to_requested_depth"))
+
+
+def handles_replay(rec):
+    return rec.get("engine") == "brokerh"
+
+
+def replay(ctx, rec, path):
+    """re-run the recorded history on the real Broker and on the model, print both"""
+    binp, out = V.go_build(ctx, "./cmd/brokerh")
+    if not binp:
+        print(out)
+        return 1
+    cdir = os.path.join(ctx.work, "broker")
+    os.makedirs(cdir, exist_ok=True)
+    corpus = os.path.join(cdir, "one.jsonl")
+    open(corpus, "w").write(json.dumps(rec["case"]) + "\n")
+    rc, out = V.run([binp, "-replay", path])
+    print(out)
+    rc, out = V.run([binp, "-out", cdir, "-modes", "", "-corpus", corpus])
+    summ = json.load(open(os.path.join(cdir, "cases_summary.json")))
+    mism, failures = V.eval_shards(ctx, summ["files"])
+    print("model vs implementation mismatches (case, step, op, kind):", mism, failures)
+    return 1 if (mism or failures or summ.get("panics")) else 0
